@@ -211,8 +211,14 @@ fn c13_shared(out: &mut dyn Write, tier: &str, rng: &mut Rng, st: &mut Stats) {
             let names: Vec<String> = pool[..k].to_vec();
             let gf = { let mut g = Gen { rng, names, allow_fix: false, big_consts: false, max_list: 3 }; let d = 1 + g.rng.below(3) as u32; g.gen(d, &HashMap::new()) };
             let text = Printer { rng, noise: false }.print(&gf);
-            let pf = { let mut rd: &[u8] = text.as_bytes(); match ParsedFormula::new_with_env(Rc::clone(&env), &mut rd, None) { Ok(p) => p, Err(_) => continue } };
-            let fresh = match parse_text(text.as_bytes(), None) { Parsed::Ok(p) => match eval_guarded(&p) { Ok(b) => show_ns(&b), Err(_) => "PANIC".to_string() }, _ => continue };
+            // every other formula comes with an explicit ordering of (some of) its names: the environment is shared all the same
+            let ordering: Option<Vec<NamedSymbol>> = if rng.chance(1, 2) {
+                let cnt = 1 + rng.below(pool.len() as u64) as usize;
+                Some(pool.iter().rev().take(cnt).enumerate().map(|(i, n)| NamedSymbol { name: Rc::new(n.clone()), id: i }).collect())
+            } else { None };
+            let pf = { let mut rd: &[u8] = text.as_bytes(); match ParsedFormula::new_with_env(Rc::clone(&env), &mut rd, ordering.clone()) { Ok(p) => p, Err(_) => continue } };
+            if !Rc::ptr_eq(&pf.env, &env) { writeln!(out, "C13|share|the formula does not hold the environment it was given").unwrap(); }
+            let fresh = match parse_text(text.as_bytes(), ordering) { Parsed::Ok(p) => match eval_guarded(&p) { Ok(b) => show_ns(&b), Err(_) => "PANIC".to_string() }, _ => continue };
             crate::watchdog::enter(&text);
             let res = eval_guarded(&pf);
             crate::watchdog::leave();
